@@ -388,7 +388,13 @@ func (w *kworld) close() {
 
 // refreshTruth reads the lineage back from kinesisfake.
 func (w *kworld) refreshTruth() {
-	out, err := w.client.ListShards(w.ctx, &awskinesis.ListShardsInput{StreamARN: &w.arn})
+	var out *awskinesis.ListShardsOutput
+	var err error
+	for try := 0; try < 4; try++ { // loopback transport hiccups (closed keep-alive connection) are retried
+		if out, err = w.client.ListShards(w.ctx, &awskinesis.ListShardsInput{StreamARN: &w.arn}); err == nil {
+			break
+		}
+	}
 	lib.Must(err)
 	w.mu.Lock()
 	defer w.mu.Unlock()
@@ -414,6 +420,31 @@ func (w *kworld) refreshTruth() {
 			}
 		}
 	}
+}
+
+// mustBeClosed: a mutation of the fake that returned a (transport) error still counts when the
+// fake applied it; otherwise the case cannot go on.
+func (w *kworld) mustBeClosed(err error, id string) {
+	if err == nil {
+		return
+	}
+	w.mu.Lock()
+	closed := w.truth[id] != nil && w.truth[id].closed
+	w.mu.Unlock()
+	if !closed {
+		w.c.Inconclusive("kinesisfake mutation failed: %v", err)
+	}
+}
+
+// transportFlake recognises loopback HTTP failures between the splitter and the fake: they are
+// not behaviour of the splitter, a sub-run that saw one cannot judge "shard never assigned".
+func transportFlake(e string) bool {
+	for _, s := range []string{"use of closed network connection", "connection reset", "broken pipe", "EOF", "deserialization failed", "connection refused"} {
+		if strings.Contains(e, s) {
+			return true
+		}
+	}
+	return false
 }
 
 // guard runs f (a call into the splitter that may block on its internal channel) under the
@@ -605,6 +636,9 @@ func (w *kworld) start(ck *snapshotpb.SourceCheckpoint, nRunners int) {
 	var err error
 	repoCall(w.c, w.witness, func() { err = w.splitter.Start(ck) })
 	if err != nil {
+		if transportFlake(err.Error()) {
+			w.c.Inconclusive("loopback transport error between splitter and kinesisfake: %v", err)
+		}
 		w.c.Fail("splitter-start-error", w.witness(), "Start returned %v", err)
 	}
 	w.barrier()
@@ -691,8 +725,8 @@ func (w *kworld) exec(st kstep) bool {
 		mid.Rsh(mid, 1)
 		ms := mid.String()
 		_, err := w.client.SplitShard(w.ctx, &awskinesis.SplitShardInput{StreamARN: &w.arn, ShardToSplit: &st.A, NewStartingHashKey: &ms})
-		lib.Must(err)
 		w.refreshTruth()
+		w.mustBeClosed(err, st.A)
 		w.logf("%v on kinesisfake", st)
 		w.c.Feat("splits", 1)
 	case "merge":
@@ -701,8 +735,8 @@ func (w *kworld) exec(st kstep) bool {
 			return false
 		}
 		_, err := w.client.MergeShards(w.ctx, &awskinesis.MergeShardsInput{StreamARN: &w.arn, ShardToMerge: &st.A, AdjacentShardToMerge: &st.B})
-		lib.Must(err)
 		w.refreshTruth()
+		w.mustBeClosed(err, st.A)
 		w.logf("%v on kinesisfake", st)
 		w.c.Feat("merges", 1)
 	case "read":
@@ -807,6 +841,11 @@ func (w *kworld) drain() {
 	w.mu.Unlock()
 	// after an assignment violation the harness readers no longer mirror what real readers would
 	// hold (e.g. a re-assigned finished shard would be read and finished a second time)
+	for _, e := range errs {
+		if transportFlake(e) && !strings.Contains(e, "context canceled") && !w.c.Violated() {
+			w.c.Inconclusive("loopback transport error between splitter and kinesisfake: %s", e)
+		}
+	}
 	if len(lost) > 0 && !w.c.Violated() {
 		w.c.Violate("shard-without-reader", w.witness(), "after every parent was finished and a full discovery round ran, no reader holds %v (incarnation %d)", lost, w.inc)
 	}
@@ -814,9 +853,14 @@ func (w *kworld) drain() {
 	// incarnation (its context is cancelled by Close) are expected and only counted.
 	var real []string
 	for _, e := range errs {
-		if strings.Contains(e, "context canceled") {
+		switch {
+		case strings.Contains(e, "context canceled"):
 			w.c.Feat("errors_of_closed_incarnations", 1)
-		} else {
+		case transportFlake(e):
+			if !w.c.Violated() {
+				w.c.Inconclusive("loopback transport error between splitter and kinesisfake: %s", e)
+			}
+		default:
 			real = append(real, e)
 		}
 	}
